@@ -457,6 +457,8 @@ class Message:
                 pass
             else:
                 raise error.BadRequest("Payload size does not match Block1")
+        elif not block1.is_valid_for_payload_size(len(next_block.payload)):
+            raise error.BadRequest("Payload size does not match Block1")
         if block1.start == len(self.payload):
             self.payload += next_block.payload
             self.opt.block1 = block1
